@@ -119,7 +119,34 @@ func genGiant(r *zsimrt.Rand, sc *Scenario) {
 	sc.Giant = true
 	n := []int{300, 300, 600, 600, 600, 1100}[r.Intn(6)]
 	var sb strings.Builder
-	switch r.Intn(6) {
+	switch r.Intn(7) {
+	case 6:
+		// a BALANCED tree (n leaves, AND and OR alternating by level, the odd leaf a wildcard, a
+		// range or a phrase): both operands of the root and of the nodes below it are big boolean
+		// sub-trees — the shape a "render the two sides in parallel" change looks for
+		leaf := 0
+		var build func(lo, hi, depth int)
+		build = func(lo, hi, depth int) {
+			if hi-lo <= 1 {
+				leaf++
+				switch leaf % 11 {
+				case 3:
+					sb.WriteString("f" + itoa(leaf%7) + ":v" + itoa(leaf) + "*")
+				case 7:
+					sb.WriteString("f" + itoa(leaf%7) + ":[" + itoa(leaf) + " TO " + itoa(leaf+9) + "]")
+				default:
+					sb.WriteString("f" + itoa(leaf%7) + ":" + itoa(leaf))
+				}
+				return
+			}
+			mid := (lo + hi) / 2
+			sb.WriteString("(")
+			build(lo, mid, depth+1)
+			sb.WriteString([]string{" AND ", " OR "}[depth%2])
+			build(mid, hi, depth+1)
+			sb.WriteString(")")
+		}
+		build(0, n, 0)
 	case 0:
 		for i := 0; i < n; i++ {
 			if i > 0 {
